@@ -269,7 +269,7 @@ def check_get_rep(col, f):
         sets = [c for c in ast.walk(n) if isinstance(c, ast.Call) and call_name(c) == "set_scope" and src(c.args[0]) == tok]
         vis = [c for c in ast.walk(n) if isinstance(c, ast.Call) and call_name(c) == "visit"]
         ok = len(sets) == 1 and len(vis) == 1 and s_defs[0].lineno < vis[0].lineno < sets[0].lineno and \
-            [src(t) for t, tr in guards(n, sets[0], pm) if tr] == [f"{tok} is not None"]
+            [(src(t), tr) for t, tr in guards(n, sets[0], pm)] == [(f"{tok} is None", False)]
     col.add("C01.R2", f.short, "retain_scope-captures-before-and-restores-after", ok,
             "get_rep must capture the scope before visiting when retain_scope is set and restore it right after the visit", f.loc)
 
